@@ -154,7 +154,13 @@ pub fn gen(s: &mut Src) -> GenDoc {
         }
         3 => { extra_res.push(("Shading", dict(vec![("S0", dict(vec![("ShadingType", Obj::Int(2)), ("ColorSpace", name("DeviceRGB")), ("Coords", ints(&[0, 0, 1, 1])),
                 ("Function", dict(vec![("FunctionType", Obj::Int(2)), ("Domain", ints(&[0, 1])), ("C0", ints(&[0, 0, 0])), ("C1", ints(&[1, 1, 1])), ("N", Obj::Int(1))]))]))]))); extra_ops.push_str("/S0 sh "); }
-        4 => { extra_res.push(("Properties", dict(vec![("M0", dict(vec![("Type", name("OCG")), ("Name", st("layer"))]))]))); extra_ops.push_str("/OC /M0 BDC 0 0 1 1 re f EMC "); }
+        4 => {
+            // a property list written directly in /Properties; half of the time it leads on to another object (/Usage), which the
+            // copy must carry over for every page that uses the list
+            let mut pl = vec![("Type", name("OCG")), ("Name", st("layer"))];
+            if s.alt(2, &["properties-plain", "properties-with-indirect-usage"]) == 1 { let u = g.add(dict(vec![("CreatorInfo", dict(vec![("Creator", st("pdfmon")), ("Subtype", name("Artwork"))]))])); pl.push(("Usage", rf(u))); }
+            extra_res.push(("Properties", dict(vec![("M0", dict(pl))]))); extra_ops.push_str("/OC /M0 BDC 0 0 1 1 re f EMC ");
+        }
         5 => { extra_ops.push_str("BI /W 1 /H 1 /BPC 8 /CS /G ID \x7f EI "); }
         _ => {}
     }
